@@ -10,7 +10,8 @@ LEVEL = "exploration"
 RULE = ("generated families weighted to positioned fields, class align and Em (also classes sharing one options dict object) x "
         "packet pairs: two parses of the same bytes, two constructions of the same tree, parsed vs constructed, one leaf changed at "
         "any depth (inside lists and nested packets too), same tree in a look-alike class with identical fields, comparisons with "
-        "None/0/b''/a list; oracle: p==q iff same class and value trees equal (harness deep compare), p!=q is its negation, "
+        "None/0/b''/a list, two default-constructed packets one of which is then changed IN PLACE (a leaf of a nested default at any depth, "
+        "a list appended to), classes declared at module level and inside a function; oracle: p==q iff same class and value trees equal (harness deep compare), p!=q is its negation, "
         "==, != and repr never raise for parsed and for default-constructed packets. Non-trivial = the declaration has a "
         "pseudo-field (positioning or Em) or the pair differs in exactly one leaf at depth>=2; distinct = (source, pair)")
 ASSUMPTIONS = ["value trees read through attribute access are the ground truth for 'all value-bearing fields compare equal'"]
